@@ -1,8 +1,541 @@
 /-
-Helper lemmas for L-la (C10): selection matrices as row lists, scatter/gather algebra.
+Helper lemmas for L-la (C10): selection matrices as row lists, scatter/gather algebra,
+the sorted `(index, value)` pairs, `np.unique`.
 -/
 import Pyiga.Model.Restrict
+import Mathlib.Algebra.BigOperators.Group.Finset.Basic
+import Mathlib.Algebra.BigOperators.Ring.Finset
+import Mathlib.Algebra.BigOperators.Group.List.Basic
+import Mathlib.Data.List.Sort
+import Mathlib.Data.List.GetD
+import Mathlib.Tactic.Ring
+import Mathlib.Tactic.Linarith
 
 namespace Pyiga.Restrict
+open List
 
+/-! ### membership / order facts about `free`, `elim` -/
+
+theorem mem_free {n i : Nat} {idx : List Nat} : i ∈ free n idx ↔ i < n ∧ i ∉ idx := by
+  simp [free]
+
+theorem mem_elim {n i : Nat} {idx : List Nat} : i ∈ elim n idx ↔ i < n ∧ i ∈ idx := by
+  simp [elim]
+
+theorem free_pairwise (n : Nat) (idx : List Nat) : (free n idx).Pairwise (· < ·) :=
+  List.pairwise_lt_range.filter _
+
+theorem elim_pairwise (n : Nat) (idx : List Nat) : (elim n idx).Pairwise (· < ·) :=
+  List.pairwise_lt_range.filter _
+
+theorem free_nodup (n : Nat) (idx : List Nat) : (free n idx).Nodup :=
+  List.nodup_range.filter _
+
+theorem elim_nodup (n : Nat) (idx : List Nat) : (elim n idx).Nodup :=
+  List.nodup_range.filter _
+
+/-- with all indices in range, `R_elim` has as many rows as there are indices iff the indices
+are pairwise distinct -/
+theorem elim_perm {n : Nat} {idx : List Nat} (hn : ∀ i ∈ idx, i < n) (hnd : idx.Nodup) :
+    elim n idx ~ idx :=
+  (List.perm_ext_iff_of_nodup (elim_nodup n idx) hnd).2 (fun a => by
+    rw [mem_elim]; exact ⟨fun h => h.2, fun h => ⟨hn a h, h⟩⟩)
+
+theorem elim_subperm (n : Nat) (idx : List Nat) : (elim n idx).Subperm idx :=
+  List.subperm_of_subset (elim_nodup n idx) (fun a h => (mem_elim.1 h).2)
+
+theorem nodup_of_elim_length {n : Nat} {idx : List Nat}
+    (h : (elim n idx).length = idx.length) : idx.Nodup := by
+  have hp : elim n idx ~ idx := (elim_subperm n idx).perm_of_length_le (by omega)
+  exact hp.nodup_iff.1 (elim_nodup n idx)
+
+theorem elim_length_lt_of_dup {n : Nat} {idx : List Nat} (h : ¬ idx.Nodup) :
+    (elim n idx).length < idx.length := by
+  have hle := (elim_subperm n idx).length_le
+  rcases Nat.lt_or_ge (elim n idx).length idx.length with h1 | h1
+  · exact h1
+  · exact absurd (nodup_of_elim_length (n := n) (by omega)) h
+
+section generic
+variable {α : Type}
+
+/-! ### the stable argsort of the `(index, value)` pairs -/
+
+theorem zip_map_fst_snd' {β γ : Type} : ∀ (ps : List (β × γ)), (ps.map Prod.fst).zip (ps.map Prod.snd) = ps
+  | [] => rfl
+  | p :: ps => by simp [zip_map_fst_snd' ps]
+
+theorem insertPair_perm (p : Nat × α) : ∀ (l : List (Nat × α)), insertPair p l ~ p :: l
+  | [] => List.Perm.refl _
+  | q :: qs => by
+    unfold insertPair
+    split
+    · exact List.Perm.refl _
+    · exact ((insertPair_perm p qs).cons q).trans (List.Perm.swap p q qs)
+
+theorem sortPairs_perm : ∀ (l : List (Nat × α)), sortPairs l ~ l
+  | [] => List.Perm.refl _
+  | p :: ps => (insertPair_perm p _).trans ((sortPairs_perm ps).cons p)
+
+theorem insertPair_keys_le (p : Nat × α) : ∀ (l : List (Nat × α)),
+    (l.map Prod.fst).Pairwise (· ≤ ·) → ((insertPair p l).map Prod.fst).Pairwise (· ≤ ·)
+  | [], _ => by simp [insertPair]
+  | q :: qs, h => by
+    unfold insertPair
+    simp only [List.map_cons, List.pairwise_cons] at h
+    split
+    · rename_i hpq
+      simp only [List.map_cons, List.pairwise_cons, List.mem_cons]
+      refine ⟨?_, h⟩
+      rintro x (rfl | hx)
+      · exact hpq
+      · exact Nat.le_trans hpq (h.1 x hx)
+    · rename_i hpq
+      simp only [List.map_cons, List.pairwise_cons]
+      refine ⟨?_, insertPair_keys_le p qs h.2⟩
+      intro x hx
+      obtain ⟨y, hy, rfl⟩ := List.mem_map.1 hx
+      rcases List.mem_cons.1 ((insertPair_perm p qs).mem_iff.1 hy) with rfl | hy'
+      · omega
+      · exact h.1 _ (List.mem_map_of_mem hy')
+
+theorem sortPairs_keys_le : ∀ (l : List (Nat × α)), ((sortPairs l).map Prod.fst).Pairwise (· ≤ ·)
+  | [] => by simp [sortPairs]
+  | p :: ps => insertPair_keys_le p _ (sortPairs_keys_le ps)
+
+theorem sortedPairs_perm (idx : List Nat) (vals : List α) : sortedPairs idx vals ~ idx.zip vals :=
+  sortPairs_perm _
+
+theorem sortedPairs_keys_perm {idx : List Nat} {vals : List α} (hl : idx.length ≤ vals.length) :
+    (sortedPairs idx vals).map Prod.fst ~ idx := by
+  have := (sortedPairs_perm idx vals).map Prod.fst
+  rwa [List.map_fst_zip hl] at this
+
+theorem sortedPairs_keys_le (idx : List Nat) (vals : List α) :
+    ((sortedPairs idx vals).map Prod.fst).Pairwise (· ≤ ·) :=
+  sortPairs_keys_le _
+
+/-- for distinct in-range indices the sorted keys are exactly the rows of `R_elim` -/
+theorem sortedPairs_keys {n : Nat} {idx : List Nat} {vals : List α} (hn : ∀ i ∈ idx, i < n)
+    (hnd : idx.Nodup) (hl : idx.length ≤ vals.length) :
+    (sortedPairs idx vals).map Prod.fst = elim n idx := by
+  have hp := sortedPairs_keys_perm (α := α) (vals := vals) hl
+  have hnd' : ((sortedPairs idx vals).map Prod.fst).Nodup := hp.nodup_iff.2 hnd
+  have hlt : ((sortedPairs idx vals).map Prod.fst).Pairwise (· < ·) :=
+    ((sortedPairs_keys_le idx vals).and hnd').imp (fun ⟨h1, h2⟩ => lt_of_le_of_ne h1 h2)
+  apply hlt.eq_of_mem_iff (elim_pairwise n idx)
+  intro a
+  rw [hp.mem_iff, mem_elim]
+  exact ⟨fun h => ⟨hn a h, h⟩, fun h => h.2⟩
+
+theorem length_sortedVals {idx : List Nat} {vals : List α} (hl : idx.length ≤ vals.length) :
+    (sortedVals idx vals).length = idx.length := by
+  unfold sortedVals
+  rw [List.length_map, (sortedPairs_perm idx vals).length_eq, List.length_zip]
+  omega
+
+/-- scalar `values` broadcasting = array of equal values (the argsort permutation is invisible) -/
+theorem sortedVals_replicate (idx : List Nat) (v : α) :
+    sortedVals idx (List.replicate idx.length v) = List.replicate idx.length v := by
+  rw [List.eq_replicate_iff]
+  constructor
+  · rw [length_sortedVals (by simp)]
+  · intro b hb
+    unfold sortedVals at hb
+    obtain ⟨p, hp, rfl⟩ := List.mem_map.1 hb
+    have := (sortedPairs_perm idx (List.replicate idx.length v)).mem_iff.1 hp
+    obtain ⟨a, x⟩ := p
+    exact List.eq_of_mem_replicate (List.of_mem_zip this).2
+
+end generic
+
+section ring
+variable {α : Type} [CommRing α]
+
+/-! ### sums over `range n` -/
+
+theorem sumRange_eq (n : Nat) (f : Nat → α) : sumRange n f = ∑ i ∈ Finset.range n, f i := by
+  unfold sumRange
+  induction n with
+  | zero => simp
+  | succ k ih => rw [List.range_succ, List.map_append, List.sum_append, ih, Finset.sum_range_succ]; simp
+
+/-! ### `pairSum`: the transposed selection product on explicit `(row, value)` pairs -/
+
+/-- sum of the values paired with row `i` -/
+def pairSum (ps : List (Nat × α)) (i : Nat) : α := ((ps.filter (fun p => p.1 == i)).map (·.2)).sum
+
+theorem scatterAt_eq_pairSum (l : List Nat) (w : List α) (i : Nat) :
+    scatterAt l w i = pairSum (l.zip w) i := rfl
+
+@[simp] theorem pairSum_nil (i : Nat) : pairSum ([] : List (Nat × α)) i = 0 := rfl
+
+theorem pairSum_cons (a : Nat) (x : α) (ps : List (Nat × α)) (i : Nat) :
+    pairSum ((a, x) :: ps) i = (if a = i then x else 0) + pairSum ps i := by
+  unfold pairSum
+  by_cases h : a = i
+  · simp [h]
+  · simp [h]
+
+theorem pairSum_perm {ps qs : List (Nat × α)} (h : ps ~ qs) (i : Nat) : pairSum ps i = pairSum qs i :=
+  ((h.filter _).map _).sum_eq
+
+theorem pairSum_eq_zero {ps : List (Nat × α)} {i : Nat} (h : ∀ p ∈ ps, p.1 ≠ i) : pairSum ps i = 0 := by
+  induction ps with
+  | nil => rfl
+  | cons p ps ih =>
+    obtain ⟨a, x⟩ := p
+    rw [pairSum_cons, if_neg (h (a, x) (by simp)), ih (fun q hq => h q (by simp [hq])), add_zero]
+
+/-- for pairwise distinct rows the transposed product just places the values -/
+theorem pairSum_of_nodup {ps : List (Nat × α)} (hnd : (ps.map Prod.fst).Nodup) {a : Nat} {x : α}
+    (hm : (a, x) ∈ ps) : pairSum ps a = x := by
+  induction ps with
+  | nil => simp at hm
+  | cons p ps ih =>
+    obtain ⟨b, y⟩ := p
+    simp only [List.map_cons, List.nodup_cons] at hnd
+    rw [pairSum_cons]
+    rcases List.mem_cons.1 hm with h | h
+    · obtain ⟨rfl, rfl⟩ := Prod.mk.inj h
+      rw [if_pos rfl, pairSum_eq_zero, add_zero]
+      intro q hq hqa
+      exact hnd.1 (hqa ▸ List.mem_map_of_mem hq)
+    · have hab : b ≠ a := by
+        rintro rfl
+        exact hnd.1 (List.mem_map_of_mem (f := Prod.fst) h)
+      rw [if_neg hab, zero_add, ih hnd.2 h]
+
+/-- `Σ_j f j * (Rᵀ w)_j = Σ_k f (rows_k) * w_k` for any rows in range (no distinctness needed:
+the transposed product sums) -/
+theorem sum_mul_pairSum (n : Nat) (f : Nat → α) (ps : List (Nat × α)) (h : ∀ p ∈ ps, p.1 < n) :
+    ∑ j ∈ Finset.range n, f j * pairSum ps j = (ps.map (fun p => f p.1 * p.2)).sum := by
+  induction ps with
+  | nil => simp
+  | cons p ps ih =>
+    obtain ⟨a, x⟩ := p
+    have ha : a < n := h (a, x) (by simp)
+    simp only [pairSum_cons, mul_add, Finset.sum_add_distrib, List.map_cons, List.sum_cons]
+    rw [ih (fun q hq => h q (by simp [hq]))]
+    congr 1
+    simp [mul_ite, Finset.sum_ite_eq, ha]
+
+/-- a zip-indexed sum as a sum over positions -/
+theorem sum_zip_eq (F : Nat → α → α) : ∀ (l : List Nat) (w : List α), l.length = w.length →
+    ((l.zip w).map (fun p => F p.1 p.2)).sum =
+      ∑ c ∈ Finset.range l.length, F (l.getD c 0) (w.getD c 0)
+  | [], _, _ => by simp
+  | _ :: _, [], h => by simp at h
+  | a :: l, x :: w, h => by
+    have hl : l.length = w.length := by simpa using h
+    simp only [List.zip_cons_cons, List.map_cons, List.sum_cons, List.length_cons]
+    rw [Finset.sum_range_succ', sum_zip_eq F l w hl]
+    simp [add_comm]
+
+/-! ### entries of the vectors the constructor builds -/
+
+theorem getD_scatter (n : Nat) (l : List Nat) (w : List α) {j : Nat} (hj : j < n) :
+    (scatter n l w).getD j 0 = scatterAt l w j := by
+  simp [scatter, List.getD_eq_getElem?_getD, List.getElem?_map, List.getElem?_range hj]
+
+theorem length_scatter (n : Nat) (l : List Nat) (w : List α) : (scatter n l w).length = n := by
+  simp [scatter]
+
+theorem getD_vadd (u v : List α) (j : Nat) (h : u.length = v.length) :
+    (vadd u v).getD j 0 = u.getD j 0 + v.getD j 0 := by
+  unfold vadd
+  simp only [List.getD_eq_getElem?_getD, List.getElem?_zipWith]
+  rcases Nat.lt_or_ge j u.length with hj | hj
+  · have hj' : j < v.length := by omega
+    simp [List.getElem?_eq_getElem hj, List.getElem?_eq_getElem hj']
+  · have hj' : v.length ≤ j := by omega
+    simp [List.getElem?_eq_none hj, List.getElem?_eq_none hj']
+
+theorem getD_vsub (u v : List α) (j : Nat) (h : u.length = v.length) :
+    (vsub u v).getD j 0 = u.getD j 0 - v.getD j 0 := by
+  unfold vsub
+  simp only [List.getD_eq_getElem?_getD, List.getElem?_zipWith]
+  rcases Nat.lt_or_ge j u.length with hj | hj
+  · have hj' : j < v.length := by omega
+    simp [List.getElem?_eq_getElem hj, List.getElem?_eq_getElem hj']
+  · have hj' : v.length ≤ j := by omega
+    simp [List.getElem?_eq_none hj, List.getElem?_eq_none hj']
+
+theorem getD_matVec (n : Nat) (A : List (List α)) (u : List α) (r : Nat) :
+    (matVec n A u).getD r 0 = if r < A.length then dotN n (A.getD r []) u else 0 := by
+  unfold matVec
+  simp only [List.getD_eq_getElem?_getD, List.getElem?_map]
+  split
+  · rename_i h; simp [List.getElem?_eq_getElem h]
+  · rename_i h; simp [List.getElem?_eq_none (Nat.le_of_not_lt h)]
+
+theorem dotN_eq (n : Nat) (row u : List α) :
+    dotN n row u = ∑ j ∈ Finset.range n, row.getD j 0 * u.getD j 0 := sumRange_eq _ _
+
+theorem scatterAt_not_mem {l : List Nat} {w : List α} {i : Nat} (h : i ∉ l) : scatterAt l w i = 0 := by
+  rw [scatterAt_eq_pairSum]
+  apply pairSum_eq_zero
+  rintro ⟨a, x⟩ hp rfl
+  exact h (List.of_mem_zip hp).1
+
+theorem scatterAt_getElem {l : List Nat} {w : List α} (hnd : l.Nodup) (hl : l.length ≤ w.length)
+    {k : Nat} (hk : k < l.length) : scatterAt l w l[k] = w.getD k 0 := by
+  rw [scatterAt_eq_pairSum]
+  apply pairSum_of_nodup
+  · rwa [List.map_fst_zip hl]
+  · have hk' : k < w.length := by omega
+    rw [List.getD_eq_getElem _ _ hk']
+    exact List.mem_iff_getElem.2 ⟨k, by simp; omega, by simp⟩
+
+/-- **the D5 repair is what makes the values line up**: scattering the argsort-permuted values
+over the increasing rows of `R_elim` is the same as scattering the caller's values over the
+caller's indices. -/
+theorem scatterAt_elim_sortedVals {n : Nat} {idx : List Nat} {vals : List α} (hn : ∀ i ∈ idx, i < n)
+    (hnd : idx.Nodup) (hl : idx.length ≤ vals.length) (i : Nat) :
+    scatterAt (elim n idx) (sortedVals idx vals) i = scatterAt idx vals i := by
+  rw [scatterAt_eq_pairSum, scatterAt_eq_pairSum, ← sortedPairs_keys hn hnd hl]
+  unfold sortedVals
+  rw [zip_map_fst_snd']
+  exact pairSum_perm (sortedPairs_perm idx vals) i
+
+/-! ### the core of `complete_spec` -/
+
+/-- entry `j` of `complete(u_f)` -/
+theorem getD_complete (n : Nat) (fr el : List Nat) (uf vs : List α) {j : Nat} (hj : j < n) :
+    (vadd (scatter n fr uf) (scatter n el vs)).getD j 0 = scatterAt fr uf j + scatterAt el vs j := by
+  rw [getD_vadd _ _ _ (by simp [length_scatter]), getD_scatter _ _ _ hj, getD_scatter _ _ _ hj]
+
+/-- row `r` of the restricted matrix applied to `u_f` is row `r` of `A` applied to `extend u_f` -/
+theorem dotN_select (n : Nat) (row : List α) (fr : List Nat) (uf : List α) (hfr : ∀ i ∈ fr, i < n)
+    (hl : uf.length = fr.length) :
+    dotN fr.length (fr.map (fun c => row.getD c 0)) uf =
+      ∑ j ∈ Finset.range n, row.getD j 0 * scatterAt fr uf j := by
+  rw [dotN_eq]
+  have h1 := sum_mul_pairSum n (fun j => row.getD j 0) (fr.zip uf)
+    (fun p hp => hfr p.1 (List.of_mem_zip (a := p.1) (b := p.2) hp).1)
+  simp only [← scatterAt_eq_pairSum] at h1
+  rw [h1, sum_zip_eq (fun a x => row.getD a 0 * x) fr uf hl.symm]
+  apply Finset.sum_congr rfl
+  intro c hc
+  have hc' : c < fr.length := Finset.mem_range.1 hc
+  congr 1
+  simp [List.getD_eq_getElem?_getD, List.getElem?_map, List.getElem?_eq_getElem hc']
+
+/-- **core of `complete_spec`**, on the explicit data the constructor computes. -/
+theorem complete_core (m n : Nat) (A : List (List α)) (bv : List α) (idx : List Nat) (vals : List α)
+    (rows : List Nat) (hn : ∀ i ∈ idx, i < n) (hnd : idx.Nodup) (hl : idx.length ≤ vals.length)
+    (hA : A.length = m) (hb : bv.length = m) (uf : List α) (huf : uf.length = (free n idx).length)
+    (hsolve : matVec (free n idx).length (selectMatrix (free m rows) (free n idx) A) uf =
+      gather (free m rows) (vsub bv (matVec n A (scatter n (elim n idx) (sortedVals idx vals))))) :
+    let u := vadd (scatter n (free n idx) uf) (scatter n (elim n idx) (sortedVals idx vals))
+    u.length = n ∧ (∀ k (hk : k < idx.length), u.getD idx[k] 0 = vals.getD k 0) ∧
+    (∀ r, r < m → r ∉ rows → dotN n (A.getD r []) u = bv.getD r 0) := by
+  intro u
+  have hu : ∀ j, j < n → u.getD j 0 = scatterAt (free n idx) uf j + scatterAt idx vals j := by
+    intro j hj
+    rw [getD_complete n _ _ _ _ hj, scatterAt_elim_sortedVals hn hnd hl]
+  refine ⟨by simp [u, vadd, length_scatter], ?_, ?_⟩
+  · intro k hk
+    have hlt : idx[k] < n := hn _ (List.getElem_mem hk)
+    rw [hu _ hlt, scatterAt_not_mem (fun h => (mem_free.1 h).2 (List.getElem_mem hk)), zero_add,
+      scatterAt_getElem hnd hl hk]
+  · intro r hr hrows
+    have hmem : r ∈ free m rows := mem_free.2 ⟨hr, hrows⟩
+    -- the r-th restricted equation
+    have hrow := (List.map_inj_left.1 (by
+      simpa only [matVec, selectMatrix, gather, List.map_map] using hsolve)) r hmem
+    simp only [Function.comp] at hrow
+    have hg : ∀ j, j < n → (scatter n (elim n idx) (sortedVals idx vals)).getD j 0 = scatterAt idx vals j := by
+      intro j hj
+      rw [getD_scatter _ _ _ hj, scatterAt_elim_sortedVals hn hnd hl]
+    rw [getD_vsub _ _ _ (by simp [hb, hA])] at hrow
+    change _ = _ - (matVec n A _).getD r 0 at hrow
+    rw [getD_matVec, if_pos (by omega)] at hrow
+    have hsel := dotN_select n (A.getD r []) (free n idx) uf (fun i hi => (mem_free.1 hi).1) huf
+    unfold entry at hrow
+    rw [hsel] at hrow
+    rw [dotN_eq] at hrow ⊢
+    rw [Finset.sum_congr rfl (fun j hj => by rw [hu j (Finset.mem_range.1 hj)])]
+    have hG : ∑ j ∈ Finset.range n, (A.getD r []).getD j 0 *
+          (scatter n (elim n idx) (sortedVals idx vals)).getD j 0 =
+        ∑ j ∈ Finset.range n, (A.getD r []).getD j 0 * scatterAt idx vals j :=
+      Finset.sum_congr rfl (fun j hj => by rw [hg j (Finset.mem_range.1 hj)])
+    rw [hG] at hrow
+    simp only [mul_add, Finset.sum_add_distrib]
+    rw [hrow]
+    ring
+
+/-! ### what a successful constructor call implies -/
+
+theorem any_ge_false_iff {n : Nat} {l : List Nat} :
+    (l.any (fun i => decide (n ≤ i))) = false ↔ ∀ i ∈ l, i < n := by
+  simp [List.any_eq_false]
+
+theorem build_inv {m n : Nat} {A : List (List α)} {b : ScalarOr α} {isArr : Bool} {idx : List Nat}
+    {vals : List α} {er : Option (List Nat)} {S : Sys α}
+    (hS : Sys.build m n A b isArr idx (.array vals) er = .ok S) :
+    idx.length ≤ vals.length ∧ (∀ i ∈ idx, i < n) ∧ idx.Nodup ∧ (b.toList m).length = m ∧
+    (∀ r, er = some r → ∀ i ∈ r, i < m) ∧ (er = none → n = m) ∧
+    S = { m := m, n := n, rfree := free n idx, relim := elim n idx,
+          rfreeV := free m (er.getD idx), relimV := elim m (er.getD idx), values := sortedVals idx vals,
+          A := selectMatrix (free m (er.getD idx)) (free n idx) A,
+          b := gather (free m (er.getD idx))
+            (vsub (b.toList m) (matVec n A (scatter n (elim n idx) (sortedVals idx vals)))) } := by
+  unfold Sys.build at hS
+  simp only [valuesOf] at hS
+  by_cases h1 : vals.length < idx.length
+  · simp [h1] at hS
+  simp only [h1, if_false] at hS
+  by_cases h2 : (idx.any (fun i => decide (n ≤ i))) = true
+  · simp [h2] at hS
+  simp only [h2, Bool.false_eq_true, if_false] at hS
+  have hn : ∀ i ∈ idx, i < n := any_ge_false_iff.1 (by simpa using h2)
+  have hl : idx.length ≤ vals.length := by omega
+  cases er with
+  | none =>
+    simp only [rowSets] at hS
+    by_cases h3 : n = m
+    · subst h3
+      simp only [ne_eq, not_true_eq_false, if_false] at hS
+      by_cases h4 : (elim n idx).length = (sortedVals idx vals).length
+      · simp only [h4, not_true_eq_false, if_false] at hS
+        by_cases h5 : (b.toList n).length = n
+        · simp only [h5, not_true_eq_false, if_false] at hS
+          rw [length_sortedVals hl] at h4
+          refine ⟨hl, hn, nodup_of_elim_length h4, h5, by simp, fun _ => rfl, ?_⟩
+          simpa using (Except.ok.inj hS).symm
+        · simp [h5] at hS
+      · simp [h4] at hS
+    · simp [h3] at hS
+  | some r =>
+    simp only [rowSets] at hS
+    by_cases h6 : (r.any (fun i => decide (m ≤ i))) = true
+    · simp [h6] at hS
+    simp only [h6, Bool.false_eq_true, if_false] at hS
+    have hr : ∀ i ∈ r, i < m := any_ge_false_iff.1 (by simpa using h6)
+    simp only [ne_eq, not_true_eq_false, if_false] at hS
+    by_cases h4 : (elim n idx).length = (sortedVals idx vals).length
+    · simp only [h4, not_true_eq_false, if_false] at hS
+      by_cases h5 : (b.toList m).length = m
+      · simp only [h5, not_true_eq_false, if_false] at hS
+        rw [length_sortedVals hl] at h4
+        refine ⟨hl, hn, nodup_of_elim_length h4, h5, ?_, by simp, ?_⟩
+        · intro r' hr'; cases hr'; exact hr
+        · simpa using (Except.ok.inj hS).symm
+      · simp [h5] at hS
+    · simp [h4] at hS
+
+/-! ### constructor outcomes, restrict/extend laws -/
+
+/-- the constructor succeeds on every valid input -/
+theorem build_ok_core (m n : Nat) (A : List (List α)) (b : ScalarOr α) (isArr : Bool) (idx : List Nat)
+    (vals : List α) (er : Option (List Nat)) (hn : ∀ i ∈ idx, i < n) (hnd : idx.Nodup)
+    (hl : idx.length ≤ vals.length) (hb : (b.toList m).length = m)
+    (her : ∀ r, er = some r → ∀ i ∈ r, i < m) (hsq : er = none → n = m) :
+    Sys.build m n A b isArr idx (.array vals) er = .ok
+        { m := m, n := n, rfree := free n idx, relim := elim n idx,
+          rfreeV := free m (er.getD idx), relimV := elim m (er.getD idx), values := sortedVals idx vals,
+          A := selectMatrix (free m (er.getD idx)) (free n idx) A,
+          b := gather (free m (er.getD idx))
+            (vsub (b.toList m) (matVec n A (scatter n (elim n idx) (sortedVals idx vals)))) } := by
+  have h1 : ¬ vals.length < idx.length := by omega
+  have h2 : (idx.any (fun i => decide (n ≤ i))) = false := any_ge_false_iff.2 hn
+  have h4 : (elim n idx).length = (sortedVals idx vals).length := by
+    rw [length_sortedVals hl, (elim_perm hn hnd).length_eq]
+  unfold Sys.build
+  simp only [valuesOf, h1, if_false, h2, Bool.false_eq_true]
+  cases er with
+  | none =>
+    have := hsq rfl
+    subst this
+    simp [rowSets, h4, hb]
+  | some r =>
+    have h6 : (r.any (fun i => decide (m ≤ i))) = false := any_ge_false_iff.2 (her r rfl)
+    simp [rowSets, h6, h4, hb]
+
+/-- duplicate indices: `R_elim` has fewer rows than there are values → `ValueError` -/
+theorem build_dup_error (m n : Nat) (A : List (List α)) (b : ScalarOr α) (isArr : Bool) (idx : List Nat)
+    (vals : List α) (er : Option (List Nat)) (hn : ∀ i ∈ idx, i < n) (hdup : ¬ idx.Nodup)
+    (hl : idx.length ≤ vals.length) (her : ∀ r, er = some r → ∀ i ∈ r, i < m) :
+    Sys.build m n A b isArr idx (.array vals) er = .error .value := by
+  have h1 : ¬ vals.length < idx.length := by omega
+  have h2 : (idx.any (fun i => decide (n ≤ i))) = false := any_ge_false_iff.2 hn
+  have h4 : (elim n idx).length ≠ (sortedVals idx vals).length := by
+    rw [length_sortedVals hl]; exact Nat.ne_of_lt (elim_length_lt_of_dup hdup)
+  unfold Sys.build
+  simp only [valuesOf, h1, if_false, h2, Bool.false_eq_true]
+  cases er with
+  | none =>
+    by_cases h3 : n = m
+    · subst h3; simp [rowSets, h4]
+    · simp [rowSets, h3]
+  | some r =>
+    have h6 : (r.any (fun i => decide (m ≤ i))) = false := any_ge_false_iff.2 (her r rfl)
+    simp [rowSets, h6, h4]
+
+/-- an index outside `[0, n)` → `IndexError` -/
+theorem build_oor_error (m n : Nat) (A : List (List α)) (b : ScalarOr α) (isArr : Bool) (idx : List Nat)
+    (vals : List α) (er : Option (List Nat)) (i : Nat) (hi : i ∈ idx) (hin : n ≤ i) :
+    Sys.build m n A b isArr idx (.array vals) er = .error .index := by
+  have h2 : (idx.any (fun i => decide (n ≤ i))) = true := by
+    rw [List.any_eq_true]; exact ⟨i, hi, by simpa using hin⟩
+  unfold Sys.build
+  by_cases h1 : vals.length < idx.length
+  · simp [valuesOf, h1]
+  · simp [valuesOf, h1, h2]
+
+/-- scalar `values` (with ndarray indices) give the same system as the constant array -/
+theorem build_scalar_values (m n : Nat) (A : List (List α)) (b : ScalarOr α) (idx : List Nat) (v : α)
+    (er : Option (List Nat)) :
+    Sys.build m n A b true idx (.scalar v) er =
+      Sys.build m n A b true idx (.array (List.replicate idx.length v)) er := by
+  unfold Sys.build
+  simp [valuesOf, sortedVals_replicate]
+
+theorem getD_gather (l : List Nat) (u : List α) (k : Nat) (hk : k < l.length) :
+    (gather l u).getD k 0 = u.getD l[k] 0 := by
+  simp [gather, List.getD_eq_getElem?_getD, List.getElem?_map, List.getElem?_eq_getElem hk]
+
+/-- `restrict (extend u_f) = u_f` -/
+theorem gather_scatter {n : Nat} {l : List Nat} (hnd : l.Nodup) (hn : ∀ i ∈ l, i < n) (w : List α)
+    (hl : w.length = l.length) : gather l (scatter n l w) = w := by
+  apply List.ext_getElem (by simp [gather, hl])
+  intro k h1 h2
+  have hk : k < l.length := by simpa [gather] using h1
+  have := getD_gather l (scatter n l w) k hk
+  rw [List.getD_eq_getElem _ _ h1] at this
+  rw [this, getD_scatter _ _ _ (hn _ (List.getElem_mem hk)), scatterAt_getElem hnd (by omega) hk,
+    List.getD_eq_getElem _ _ h2]
+
+/-- `extend (restrict u)` keeps the free entries and zeroes the rest -/
+theorem scatterAt_gather {l : List Nat} (hnd : l.Nodup) (u : List α) (j : Nat) :
+    scatterAt l (gather l u) j = if j ∈ l then u.getD j 0 else 0 := by
+  by_cases hj : j ∈ l
+  · obtain ⟨k, hk, rfl⟩ := List.mem_iff_getElem.1 hj
+    rw [if_pos hj, scatterAt_getElem hnd (by simp [gather]) hk, getD_gather _ _ _ hk]
+  · rw [if_neg hj, scatterAt_not_mem hj]
+
+/-- `complete (restrict u) = u` for a vector that carries the prescribed values -/
+theorem complete_gather {n : Nat} {idx : List Nat} {vals : List α} (hn : ∀ i ∈ idx, i < n)
+    (hnd : idx.Nodup) (hl : idx.length ≤ vals.length) (u : List α) (hu : u.length = n)
+    (hv : ∀ k (hk : k < idx.length), u.getD idx[k] 0 = vals.getD k 0) :
+    vadd (scatter n (free n idx) (gather (free n idx) u)) (scatter n (elim n idx) (sortedVals idx vals)) = u := by
+  apply List.ext_getElem (by simp [vadd, length_scatter, hu])
+  intro j h1 h2
+  have hj : j < n := by omega
+  have := getD_complete n (free n idx) (elim n idx) (gather (free n idx) u) (sortedVals idx vals) hj
+  rw [List.getD_eq_getElem _ _ h1] at this
+  rw [this, scatterAt_elim_sortedVals hn hnd hl, scatterAt_gather (free_nodup n idx), ← List.getD_eq_getElem _ 0 h2]
+  by_cases hm : j ∈ idx
+  · obtain ⟨k, hk, rfl⟩ := List.mem_iff_getElem.1 hm
+    rw [if_neg (fun h => (mem_free.1 h).2 hm), zero_add, scatterAt_getElem hnd hl hk, hv k hk]
+  · rw [if_pos (mem_free.2 ⟨hj, hm⟩), scatterAt_not_mem hm, add_zero]
+
+/-- entries of `restrict_matrix(B)`: `(R_v B R_fᵀ)[r'][c'] = B[rows_v[r']][rows_f[c']]` -/
+theorem entry_selectMatrix (rv rf : List Nat) (B : List (List α)) (r c : Nat) (hr : r < rv.length)
+    (hc : c < rf.length) : entry (selectMatrix rv rf B) r c = entry B rv[r] rf[c] := by
+  simp [entry, selectMatrix, List.getD_eq_getElem?_getD, List.getElem?_map,
+    List.getElem?_eq_getElem hr, List.getElem?_eq_getElem hc]
+
+end ring
 end Pyiga.Restrict
